@@ -57,6 +57,7 @@ META = {
 F9_ID = 'F9-C13-equal-names'
 F23_ID = 'F23-auto-tag-key-unknown-before-first-dump'
 F62_ID = 'F62-member-level-auto-tag-not-dumped'
+F63_ID = 'F63-member-own-tag-key-not-read'
 
 FIELD_POOL = [('a', 'int', None), ('b', 'str', None), ('d', 'List[int]', None), ('c', 'int', '3')]   # the defaulted field last
 FIELD_SETS = {   # relation -> list of field-index sets per member (cut to family size)
@@ -77,15 +78,30 @@ WRAP = {'direct': lambda x: x, 'opt': lambda x: x, 'list': lambda x: [x], 'dict'
         'vtuple': lambda x: [x], 'listdict': lambda x: [{'k': x}], 'optlist': lambda x: [x]}
 
 
+def container_auto(cfg):
+    c = cfg['container']
+    return bool(c.get('auto_assign_tags')) and not c.get('no_meta') and c.get('recursive') is not False
+
+
 def expected_tag(cfg, i):
     m = cfg['members'][i]
     if m.get('tag'):
         return m['tag']
-    return m['pyname'] if (cfg['container'].get('auto_assign_tags') or m.get('own_auto')) else None
+    return m['pyname'] if (container_auto(cfg) or m.get('own_auto')) else None
 
 
 def tag_key(cfg):
-    return cfg['container'].get('tag_key') or '__tag__'
+    """the key the Union READS: the container's tag_key when its Meta cascades (exists, recursive not False), else the default.
+    A holder class between container and Union never changes it (only the root's config cascades)."""
+    c = cfg['container']
+    if c.get('no_meta') or c.get('recursive') is False:
+        return '__tag__'
+    return c.get('tag_key') or '__tag__'
+
+
+def writer_key(cfg, i):
+    """the key member i's dump function WRITES its tag under: its own Meta's tag_key, else what cascades from the root."""
+    return cfg['members'][i].get('own_tag_key') or tag_key(cfg)
 
 
 def values_for(m, rng):
@@ -198,18 +214,31 @@ def gen_rich_config(rng, engine):
     inherit = rng.random() < 0.25          # member 1 subclasses member 0 (plain dataclasses, auto tags from the container)
     if inherit:
         root_auto = True
+    # where tag_key / auto_assign_tags are configured: container Meta that cascades / recursive=False / no Meta at all,
+    # a holder class with its own Meta between container and Union, the members' own Meta
+    level = 'cascade' if inherit else rng.choice(['cascade', 'cascade', 'nonrecursive', 'no_meta', 'holder', 'holder_nometa_container'])
+    if engine == 'v1' and level in ('no_meta', 'holder_nometa_container'):
+        level = 'nonrecursive'
+    cascades = level in ('cascade', 'holder')
+    if not cascades:
+        eff_root_auto = False
+    else:
+        eff_root_auto = root_auto
     tagpool = rng.sample(ODD, n) if rng.random() < 0.4 else ['t%d' % i for i in range(n)]
     identical = rng.random() < 0.5
     base_specs = rng.sample(RICH_POOL, rng.choice([2, 3, 4]))
     members = []
     for i in range(n):
-        specs = base_specs if identical else rng.sample(RICH_POOL, rng.choice([1, 2, 3, 4]))
+        specs = base_specs if identical else rng.sample(RICH_POOL, rng.choice([0, 1, 2, 3, 4]))
         specs = sorted(specs, key=lambda sp: [x[0] for x in RICH_POOL].index(sp[0]))
+        member_shape = 'any' if (identical or inherit) else rng.choice(['any', 'any', 'empty', 'catchall_only', 'defaults_only', 'noinit_only'])
+        if member_shape in ('empty', 'catchall_only', 'noinit_only'):
+            specs = []
         child = inherit and i == 1
         if child:
             specs = [sp for sp in RICH_POOL if sp[0] not in {x for x in members[0]['_names']}][:2]
         lines, kinds = [], {}
-        decl = [rich_field(rng, engine, sp, force_default=child) for sp in specs]
+        decl = [rich_field(rng, engine, sp, force_default=child or member_shape == 'defaults_only') for sp in specs]
         order = sorted(range(len(specs)), key=lambda j: decl[j][1])      # fields without default first
         for j in order:
             lines.append(decl[j][0])
@@ -218,15 +247,18 @@ def gen_rich_config(rng, engine):
             lines = ['pass']
         explicit = rng.random() < 0.5 and not (inherit and i < 2)
         own_auto = rng.random() < 0.25 and not (inherit and i < 2)
-        if not explicit and not root_auto and not own_auto:
+        if not explicit and not eff_root_auto and not own_auto:
             explicit = True
-        m = {'pyname': 'K%d' % i, 'style': 'plain' if (inherit and i < 2) else rng.choice(['inner', 'plain']),
+        m = {'pyname': 'K%d' % i, '_shape': member_shape, 'style': 'plain' if (inherit and i < 2) else rng.choice(['inner', 'plain']),
              'body': lines, 'kinds': kinds, '_names': [sp[0] for sp in specs] + (members[0]['_names'] if child else []),
              '_specs': [sp[0] for sp in specs] + (members[0]['_specs'] if child else []),
              'tag': tagpool[i] if explicit else None, 'own_auto': own_auto,
              # default engine: a CatchAll field also captures the root key of a path field (C10's business): not combined
-             'catchall': (not inherit) and rng.random() < 0.25 and not (engine == 'v0' and any('pp.' in ln for ln in lines)),
+             'catchall': (member_shape == 'catchall_only') or ((not inherit) and rng.random() < 0.25
+                                                               and not (engine == 'v0' and any('pp.' in ln for ln in lines))),
              'fields': []}
+        if rng.random() < 0.15 and not inherit:
+            m['own_tag_key'] = rng.choice(['mk', 'kind', '__tag__'])       # the member's own Meta sets a tag key
         if child:
             m['base'] = 0
             m['kinds'] = dict(members[0]['kinds'], **kinds)
@@ -235,7 +267,7 @@ def gen_rich_config(rng, engine):
     if unknown is None and not inherit:
         for m in members:
             # an init=False field is dumped but not an init argument: only where its key may be ignored on load
-            if not m['catchall'] and rng.random() < 0.2:
+            if not m['catchall'] and (rng.random() < 0.2 or m.get('_shape') == 'noinit_only'):
                 m['body'] = [ln for ln in m['body'] if ln != 'pass'] + ['z: int = field(default=9, init=False)']
                 m['kinds']['z'] = 'noinit'
                 m['_specs'] = m['_specs'] + ['z']
@@ -243,12 +275,23 @@ def gen_rich_config(rng, engine):
     args = list(range(n)) + scalars
     rng.shuffle(args)
     tk = rng.choice([None, 'type', 'kind'] + ODD)
-    cfg = {'engine': engine, 'mode': 'roundtrip', 'rich': True, 'members': members, 'order': args,
+    container = {'tag_key': tk, 'auto_assign_tags': root_auto, 'position': rng.choice(POSITIONS + ['nt', 'td', 'ntlist', 'nt', 'td']),
+                 'unknown': unknown}
+    if level == 'nonrecursive':
+        container['recursive'] = False
+    if level in ('no_meta', 'holder_nometa_container'):
+        container['no_meta'] = True
+        container['unknown'] = None
+    if level in ('holder', 'holder_nometa_container'):
+        container['holder'] = {'tag_key': rng.choice([None, 'hk', 'kind']), 'list': rng.random() < 0.5, 'meta': rng.random() < 0.5}
+    for m in members:
+        m.pop('_shape', None)
+    cfg = {'engine': engine, 'mode': 'roundtrip', 'rich': True, 'members': members, 'order': args, 'level': level,
            'relation': 'rich-identical' if identical else 'rich-mixed',
            'tagging': 'explicit' if all(m['tag'] for m in members) else ('auto' if not any(m['tag'] for m in members) else 'mixed'),
            'doc_type': rng.choice(['dict', 'dict', 'OrderedDict', 'subclass']),
            'history': rng.choice(['none', 'none', 'alone_dump', 'alone_dump_load']),
-           'container': {'tag_key': tk, 'auto_assign_tags': root_auto, 'position': rng.choice(POSITIONS), 'unknown': unknown}}
+           'container': container}
     ops = []
     byname = {sp[0]: sp for sp in RICH_POOL}
     allvals = []
@@ -266,9 +309,14 @@ def gen_rich_config(rng, engine):
     for t in [x for x in ['nope', t0.lower() + '_', t0 + t0] if x not in tags][:2]:
         ops.append({'op': 'retag', 'member': 0, 'values': allvals[0], 'tag': t, 'tag_key': tag_key(cfg), 'expect': 'unknown_tag'})
     ops.append({'op': 'retag', 'member': 0, 'values': allvals[0], 'tag': None, 'tag_key': tag_key(cfg), 'expect': 'no_tag'})
+
     if n > 1 and tags[1]:
         # K0's dump relabelled with K1's tag must be handled by K1's loader (or rejected by it), never silently stay K0
         ops.append({'op': 'retag', 'member': 0, 'values': allvals[0], 'tag': tags[1], 'tag_key': tag_key(cfg), 'expect': 'other_member', 'other': 1})
+    for o_ in ops:
+        if o_['op'] == 'retag':
+            o_['cur_tag'] = tags[0]
+            o_['tag_keys'] = sorted({tag_key(cfg), writer_key(cfg, 0), '__tag__'})
     for m in members:
         m.pop('_names', None); m.pop('_specs', None)
     cfg['ops'] = ops
@@ -363,7 +411,9 @@ def any_F9(cfg):
 def pre_assigned(cfg):
     """auto tags are assigned before the member loaders of the container are generated: only when the container
     itself has auto_assign_tags and was dumped before its first load."""
-    return cfg['mode'] == 'roundtrip' and bool(cfg['container'].get('auto_assign_tags'))
+    # (a Union inside a NESTED class: the dump-side pass caches that class's field parsers - built before the tags were
+    #  assigned - so dumping first does not help there)
+    return cfg['mode'] == 'roundtrip' and container_auto(cfg) and not cfg['container'].get('holder')
 
 
 def in_region_F23(cfg, i):
@@ -376,8 +426,13 @@ def in_region_F62(cfg, i):
     """the member's tag comes only from its OWN auto_assign_tags: the dumper emits no tag (unless the container's
     Union parser was built before the member's dump function)."""
     m = cfg['members'][i]
-    return (m.get('tag') is None and bool(m.get('own_auto')) and not cfg['container'].get('auto_assign_tags')
+    return (m.get('tag') is None and bool(m.get('own_auto')) and not container_auto(cfg)
             and cfg['mode'] == 'roundtrip')
+
+
+def in_region_F63(cfg, i):
+    """the member's own Meta sets a tag_key different from the one the Union reads."""
+    return writer_key(cfg, i) != tag_key(cfg)
 
 
 # --------------------------------------------------------------------------------------
@@ -408,8 +463,9 @@ def check_op_rich(cfg, op, r):
         if d is None:
             return ('dump of a K%d instance raised %s: %s' % (i, r.get('err'), (r.get('msg') or '')[:160]), i)
         top = {k['str']: v for k, v in d}
-        if top.get(tk) != {'str': tag}:
-            return ('dump of a K%d instance has %r under the tag key %r, expected %r (keys %r)' % (i, top.get(tk), tk, tag, sorted(top)), i)
+        wk = writer_key(cfg, i)
+        if top.get(wk) != {'str': tag}:
+            return ('dump of a K%d instance has %r under the tag key %r, expected %r (keys %r)' % (i, top.get(wk), wk, tag, sorted(top)), i)
         if 'err' in r:
             return ('load(dump(k)) of a K%d instance raised %s: %s' % (i, r['err'], (r.get('msg') or '')[:160]), i)
         if r['loaded_member'] != i:
@@ -420,22 +476,22 @@ def check_op_rich(cfg, op, r):
     if op['op'] == 'retag':
         if op['expect'] == 'unknown_tag':
             if r.get('err') != 'ParseError':
-                return ('unknown tag %r: got %s, expected ParseError' % (op['tag'], r.get('err') or 'a value'), None)
+                return ('unknown tag %r: got %s, expected ParseError' % (op['tag'], r.get('err') or 'a value'), 0)
             want = sorted({t for t in (expected_tag(cfg, j) for j in range(len(cfg['members']))) if t})
             if r.get('valid_tags') != want:
-                return ('unknown tag: ParseError lists valid tags %r, expected %r' % (r.get('valid_tags'), want), None)
+                return ('unknown tag: ParseError lists valid tags %r, expected %r' % (r.get('valid_tags'), want), 0)
             return None
         if op['expect'] == 'no_tag':
             scal = [x for x in cfg['order'] if isinstance(x, str)]
             if cfg['engine'] == 'v1' and any(x in ('str', 'bool') for x in scal):
                 return None
             if r.get('err') != 'ParseError':
-                return ('no tag: got %s, expected ParseError' % (r.get('err') or 'a value %r' % (r.get('loaded'),)), None)
+                return ('no tag: got %s, expected ParseError' % (r.get('err') or 'a value %r' % (r.get('loaded'),)), 0)
             return None
         if op['expect'] == 'other_member':
             # dispatch depends on the tag alone: the other member's loader runs (it may accept or reject the fields)
             if 'err' not in r and r.get('loaded_member') != op['other']:
-                return ('K0 dump relabelled %r loaded as member %r, expected member %d or a load error' % (op['tag'], r.get('loaded_member'), op['other']), None)
+                return ('K0 dump relabelled %r loaded as member %r, expected member %d or a load error' % (op['tag'], r.get('loaded_member'), op['other']), 0)
             return None
     return None
 
@@ -721,7 +777,7 @@ def run(ctx):
     resolved = set()
     for f in ctx.findings():
         w = f.get('witness')
-        if not isinstance(w, dict) or 'cfg' not in w or f['id'] not in (F9_ID, F23_ID, F62_ID):
+        if not isinstance(w, dict) or 'cfg' not in w or f['id'] not in (F9_ID, F23_ID, F62_ID, F63_ID):
             continue
         cfg = dict(w['cfg']); cfg.setdefault('mode', 'loadfirst' if cfg['ops'][0]['op'] == 'load' else 'roundtrip')
         bad = witness_fails(ctx, cfg)
@@ -751,6 +807,7 @@ def run(ctx):
         ctx.hist('engine/mode', '%s/%s' % (cfg['engine'], cfg['mode']))
         ctx.hist('members', len(cfg['members']))
         if cfg.get('rich'):
+            ctx.hist('rich_config_level', cfg.get('level'))
             for m_ in cfg['members']:
                 for line in m_.get('body', []):
                     for kw_ in ('KeyPath', 'path_field', 'AliasPath', 'Alias(', 'json_key', 'json_field', 'skip_if_field', 'default_factory', 'Inner', 'init=False'):
@@ -784,6 +841,8 @@ def run(ctx):
                 ctx.hist('known_region', F23_ID)
             elif i is not None and in_region_F62(cfg, i) and op['op'] == 'roundtrip' and ctx.is_open_region(F62_ID):
                 ctx.hist('known_region', F62_ID)
+            elif i is not None and in_region_F63(cfg, i) and ctx.is_open_region(F63_ID):
+                ctx.hist('known_region', F63_ID)
             elif i is None and any_F9(cfg) and op.get('expect') == 'unknown_tag' and ctx.is_open_region(F9_ID):
                 ctx.hist('known_region', F9_ID)
             else:
